@@ -15,6 +15,14 @@ def model(chk, thorough):
 
 def drive(chk, gets, walks, walklen, maxstates=0):
     wd = vlib.scratch("verif-c08-")
+    # several puts at once: the search and the change of the tree are one critical section (driver: "simultaneous puts")
+    pa = vlib.run_tlc("MC_RegionCachePut", "MC_RegionCachePut.cfg", timeout=300)
+    vlib.tlc_must_pass(pa, "MC_RegionCachePut")
+    chk.add_tlc(pa)
+    pn = vlib.run_tlc("MC_RegionCachePut", "MC_RegionCachePut_split.cfg", timeout=300)
+    if pn["violated"] != "NoOverlap":
+        raise vlib.MachineryError("MC_RegionCachePut_split: expected the NoOverlap counter-example, got %r" % (pn["violated"],))
+    chk.cov["model_counterexample_search_and_change_not_one_critical_section"] = "NoOverlap"
     g = vlib.run_tlc("Gen_RegionCache", workers=1, timeout=120, workdir=wd)
     vlib.tlc_must_pass(g, "Gen_RegionCache")
     t = vlib.go_test("", "^TestVerifC08$", env=dict(VERIF_IN=wd, VERIF_OUT=wd, VERIF_SEED=str(chk.seed),
